@@ -130,13 +130,6 @@ impl Park {
         }
     }
 
-    #[inline]
-    fn fast_wake_up(&self) {
-        if let Some(co) = self.wait_co.take() {
-            run_coroutine(co);
-        }
-    }
-
     /// park current coroutine with specified timeout
     /// if timeout happens, return Err(ParkError::Timeout)
     /// if cancellation detected, return Err(ParkError::Canceled)
@@ -219,7 +212,14 @@ impl EventSource for Park {
         if self.state.load(Ordering::Acquire) {
             // here may have recursive call for subscribe
             // normally the recursion depth is not too deep
-            return self.fast_wake_up();
+            // take the coroutine, then release the kernel flag before running it:
+            // it may run to its end and drop this park, which waits for the flag
+            let co = self.wait_co.take();
+            drop(_g);
+            if let Some(co) = co {
+                run_coroutine(co);
+            }
+            return;
         }
 
         // register the cancel data
